@@ -84,6 +84,39 @@ def reached_fns(unit_name, g, res):
     return out
 
 
+_ITEMS_BASE = None
+
+
+def items_outside_contracts(unit_name, g):
+    """code the contracts do not see and did not see when they were written: top-level items of the extracted repo files
+    that no contract selects (a hand-written impl replacing a derive, a new function, ...) and derive lists that changed
+    (T drops derive attributes).  contracts/items_baseline.json is the reference (tools/record_items_baseline.py)."""
+    global _ITEMS_BASE
+    if _ITEMS_BASE is None:
+        p = os.path.join(VERIF, 'contracts', 'items_baseline.json')
+        _ITEMS_BASE = json.load(open(p)).get('units', {}) if os.path.exists(p) else {}
+    base = _ITEMS_BASE.get(unit_name)
+    if base is None:
+        return []
+    out = []
+    for f, labels in (getattr(g, 'unclaimed', {}) or {}).items():
+        if f.startswith('dep:'):
+            continue
+        known = list(base.get('unclaimed', {}).get(f, []))
+        for l in labels:
+            if l in known:
+                known.remove(l)
+            else:
+                out.append('%s: item `%s` is not under any contract' % (f, l))
+    for k, v in (getattr(g, 'derives', {}) or {}).items():
+        if k.startswith('dep:'):
+            continue
+        b = base.get('derives', {}).get(k)
+        if b is not None and sorted(b) != sorted(v):
+            out.append('%s: derive list changed from %s to %s (derived impls are outside the contracts)' % (k, b, v))
+    return out
+
+
 def run_unit(name, factory, canaries=True, rlimit=30):
     out = {'unit': name, 'infra': [], 'ok': False}
     t0 = time.time()
@@ -134,6 +167,7 @@ def run_unit(name, factory, canaries=True, rlimit=30):
     out['demoted'] = sorted(demoted)
     out.update({'g': g, 'res': res, 'cl': cl})
     out['reached'] = reached_fns(name, g, res)
+    out['new_items'] = items_outside_contracts(name, g)
     if res['json'] is None or res['vir_error'] or cl['infra']:
         for i in cl['infra']:
             out['infra'].append('verus front end / resource: %s (fn %s, generated line %s)' % (i['message'][:300], i['fn'], i['line']))
@@ -244,6 +278,9 @@ def obligations_for(prop, ur):
         if not c.get('inherited') and c['id'] in mark_props and not mark_props[c['id']][0] and not mark_props[c['id']][1]:
             obs.append({'id': c['id'], 'kind': 'proof-internal', 'fn': c.get('fn'), 'status': 'undecided',
                         'text': 'a contract clause that no property claims failed', 'diag': c})
+    for k_, msg in enumerate(ur.get('new_items') or []):
+        obs.append({'id': '%s#outside-contracts-%d' % (ur['unit'], k_), 'kind': 'proof-internal', 'fn': None, 'status': 'undecided', 'unreached': True,
+                    'text': msg, 'diag': None})
     for fid in sorted(demoted):
         if prop in fprops.get(fid, []) or (prop == 'C13'):
             obs.append({'id': fid + '#front-end', 'kind': 'proof-internal', 'fn': fid, 'status': 'undecided', 'unreached': True,
@@ -401,7 +438,7 @@ def check_property(prop, tier, seed):
             log('INFRA: ' + i)
         for ob in undecided:
             log('UNDECIDED (%s): %s' % ('not verified: the front end rejected this function, or an error elsewhere kept the verifier from reaching it' if ob.get('unreached') else 'proof needs maintenance, no semantic obligation failed', ob['id']))
-            if ob.get('unreached') and ob.get('text') and ob['id'].endswith('#front-end'):
+            if ob.get('unreached') and ob.get('text') and (ob['id'].endswith('#front-end') or '#outside-contracts' in ob['id']):
                 log('  ' + ob['text'][:300])
             d = ob.get('diag') or {}
             if d.get('rendered'):
